@@ -59,7 +59,7 @@ func (g *cacheGen) obj() kv.Obj {
 	k := kv.Pick(g.r, g.keys)
 	// mostly valid versions; the malformed stream is a minority
 	v := kv.Pick(g.r, g.vers)
-	return kv.Obj{Kind: "pod", NS: k[0], Name: k[1], RV: v, Labels: kv.Pick(g.r, g.labels)}
+	return kv.Obj{Kind: "pod", NS: k[0], Name: k[1], RV: v, Labels: kv.Pick(g.r, g.labels), UID: kv.Pick(g.r, []string{"", "u1", "u2"})}
 }
 
 func (g *cacheGen) list() []kv.Obj {
